@@ -4,8 +4,8 @@ package main
 
 import (
 	"fmt"
-	"math/big"
 	"go/types"
+	"math/big"
 	"strings"
 )
 
